@@ -551,6 +551,21 @@ theorem announcement_invalid_point_rejected (O : Oracle) (v : UInt8) (sig R snap
     split at hp <;> simp at hp
 
 
+/-! ## the defect repaired by the `fix:` commit in p2p/handle.go
+
+Before the fix the transaction slice of `parseTransactionsPayload` was `data[4 : 4+size]` with
+`size` a `uint32`: the sum wraps.  For a declared size within 4 of 2^32 that is really present
+(the length test `len(data[4:]) < int(size)` passes) the upper bound wraps below 4 and the slice
+expression panics.  The model above follows the repaired code (`4+int(size)`); the witness is
+replayed on the real code by the harness op `huge` (property mode, key `C08:parse-panics-4gib`). -/
+
+theorem uint32_slice_bound_counterexample (data : Bytes) (size : Nat)
+    (h1 : 2 ^ 32 - 4 ≤ size) (h2 : size < 2 ^ 32) :
+    slice data 4 ((4 + size) % 2 ^ 32) = none := by
+  unfold slice
+  rw [if_neg]
+  omega
+
 /-! ## totality for everything the transport can deliver, and non-vacuity -/
 
 /-- the statement in the form the transport gives it: any message of at most
